@@ -368,7 +368,13 @@ for _ in range(max_steps):
     t += step_size
 return Result(NoSteadyState())"""
         got_rest = "\n".join(ast.unparse(s) for s in (b[1:] if facts["ss_resets"] == "true" else b))
-        if got_rest != expect_rest:
+        # since a56e563 the loop tests integ.successful() after every step (C15's business: a failing solver is
+        # reported as failure); both forms leave the time / state bookkeeping modelled here unchanged
+        expect_rest_checked = expect_rest.replace(
+            "    y2 = np.array(integ.integrate(t), dtype=float)\n",
+            "    y2 = np.array(integ.integrate(t), dtype=float)\n    if not integ.successful():\n        return Result(IntegrationFailure())\n",
+        )
+        if got_rest not in (expect_rest, expect_rest_checked):
             shapes_ok = False
     else:
         shapes_ok = False
@@ -381,7 +387,7 @@ return Result(NoSteadyState())"""
     return self
 t_start = 0.0 if (variables := self.variables) is None else variables[-1].index[-1]
 protocol = protocol.copy()
-protocol.index = (cast(pd.TimedeltaIndex, protocol.index) + pd.Timedelta(t_start, unit='s')).total_seconds()
+protocol.index = @IDX@
 time_points = np.array(time_points, dtype=float)
 if time_points_as_relative:
     time_points += t_start
@@ -401,13 +407,21 @@ for t_end, pars in protocol.iterrows():
         break
 return self"""
         ops = {"<=": "CmpLe", "<": "CmpLt", ">=": "CmpGe", ">": "CmpGt"}
+        # the step ends in absolute time, index + t_start: via a Timedelta (exact only when t_start is a whole number of
+        # nanoseconds -- known finding protocol-start-rounded-to-ns of C14) or in seconds (fixes/C14-protocol-start-seconds.diff);
+        # the Q model is `fst r + t_start` for both
+        idx_variants = (
+            "(cast(pd.TimedeltaIndex, protocol.index) + pd.Timedelta(t_start, unit='s')).total_seconds()",
+            "cast(pd.TimedeltaIndex, protocol.index).total_seconds() + t_start",
+        )
         found = False
         for r, rc in ops.items():
             for lo, lc in ops.items():
                 for hi, hc in ops.items():
-                    if src == template.replace("@R@", r).replace("@LO@", lo).replace("@HI@", hi):
-                        facts["ptc_cmp"], facts["win_lo"], facts["win_hi"] = rc, lc, hc
-                        found = True
+                    for iv in idx_variants:
+                        if src == template.replace("@R@", r).replace("@LO@", lo).replace("@HI@", hi).replace("@IDX@", iv):
+                            facts["ptc_cmp"], facts["win_lo"], facts["win_hi"] = rc, lc, hc
+                            found = True
         if not found:
             shapes_ok = False
     else:
@@ -441,9 +455,11 @@ def gen() -> dict[str, str]:
 # ---------------------------------------------------------------------------------------
 # exact mode: variables (x, y), parameters (k, c, a, boom):  x' = k*y + a*time, y' = c
 # scipy mode: variables (x, y), parameters (k, c):           x' = -k*x,         y' = k*x - c*y
+# tdep mode:  variables (x, y), parameters (k, c):           x' = -k*time*x,    y' = c*time - k*y   (real scipy; every rate
+#             reads `time`, so the model time the right-hand side is handed is observable; closed form below)
 
 VARS = ["x", "y"]
-PARS = {"exact": ["k", "c", "a", "boom"], "scipy": ["k", "c"]}
+PARS = {"exact": ["k", "c", "a", "boom"], "scipy": ["k", "c"], "tdep": ["k", "c"]}
 
 
 def r_ky_at(y, k, a, time):  # noqa: ANN001
@@ -462,6 +478,18 @@ def r_cy(y, c):  # noqa: ANN001
     return c * y
 
 
+def r_ktx(x, k, time):  # noqa: ANN001
+    return k * time * x
+
+
+def r_ct(c, time):  # noqa: ANN001
+    return c * time
+
+
+def r_ky(y, k):  # noqa: ANN001
+    return k * y
+
+
 def build_model(mode: str, y0: list[Fraction], p0: list[Fraction]):
     from mxlpy import Model
 
@@ -471,10 +499,23 @@ def build_model(mode: str, y0: list[Fraction], p0: list[Fraction]):
     if mode == "exact":
         m.add_reaction("v1", r_ky_at, args=["y", "k", "a", "time"], stoichiometry={"x": 1.0})
         m.add_reaction("v2", r_c, args=["c"], stoichiometry={"y": 1.0})
-    else:
+    elif mode == "scipy":
         m.add_reaction("v1", r_kx, args=["x", "k"], stoichiometry={"x": -1.0, "y": 1.0})
         m.add_reaction("v2", r_cy, args=["y", "c"], stoichiometry={"y": -1.0})
+    else:
+        m.add_reaction("v1", r_ktx, args=["x", "k", "time"], stoichiometry={"x": -1.0})
+        m.add_reaction("v2", r_ct, args=["c", "time"], stoichiometry={"y": 1.0})
+        m.add_reaction("v3", r_ky, args=["y", "k"], stoichiometry={"y": -1.0})
     return m
+
+
+def expected_fluxes(mode: str, pv: dict[str, float], t: float, x: float, y: float) -> dict[str, float]:
+    """the rate laws of build_model evaluated by hand (C14: fluxes inside a step use that step's values)"""
+    if mode == "exact":
+        return {"v1": pv["k"] * y + pv["a"] * t, "v2": pv["c"]}
+    if mode == "scipy":
+        return {"v1": pv["k"] * x, "v2": pv["c"] * y}
+    return {"v1": pv["k"] * t * x, "v2": pv["c"] * t, "v3": pv["k"] * y}
 
 
 def exact_flow(p: dict[str, Fraction], t0: Fraction, y: list[Fraction], d: Fraction) -> list[Fraction]:
@@ -492,6 +533,22 @@ def chain_flow(p: dict[str, float], y: list[float], d: float) -> list[float]:
         yy = y[1] * ec + k * y[0] * (ek - ec) / (c - k)
     else:
         yy = y[1] * ek + k * y[0] * d * ek
+    return [x, yy]
+
+
+def tdep_flow(p: dict[str, float], t0: float, y: list[float], d: float) -> list[float]:
+    """closed-form solution of the tdep-mode system from state y at ABSOLUTE model time t0 after duration d:
+    x' = -k t x  ->  x(t0+d) = x exp(-k ((t0+d)^2 - t0^2)/2);   y' = c t - k y  ->  particular solution
+    yp(t) = (c/k) t - c/k^2, y(t0+d) = yp(t0+d) + (y - yp(t0)) exp(-k d)   (k = 0: y + c ((t0+d)^2 - t0^2)/2)"""
+    k, c = float(p["k"]), float(p["c"])
+    t0, d = float(t0), float(d)
+    q = ((t0 + d) ** 2 - t0**2) / 2
+    x = y[0] * math.exp(-k * q)
+    if k != 0:
+        yp = lambda t: c / k * t - c / (k * k)  # noqa: E731
+        yy = yp(t0 + d) + (y[1] - yp(t0)) * math.exp(-k * d)
+    else:
+        yy = y[1] + c * q
     return [x, yy]
 
 
@@ -532,6 +589,9 @@ class _ExactOde:
         self.y = [common.to_fraction(v) for v in y]
         self.t = common.to_fraction(t)
         return self
+
+    def successful(self) -> bool:
+        return True  # the exact stand-in never fails
 
     def integrate(self, t):  # noqa: ANN001
         import numpy as np
@@ -603,16 +663,39 @@ def _protocol(steps):  # noqa: ANN001
     return make_protocol([(float(fr(d)), {k: float(fr(v)) for k, v in u.items()}) for d, u in steps])
 
 
-def apply_op(sim, op: list) -> None:  # noqa: ANN001
+def _grid(ctx: dict | None, gid, pts: list):  # noqa: ANN001
+    """the time-point argument of a tc / ptc operation: a fresh list, or -- when the operation carries a grid id --
+    ONE float64 ndarray per id, created at first use and handed to every operation with that id (a caller reusing
+    the same array object for several calls).  ctx["grids"][gid] = (the array, its literal values)."""
+    lit = [float(fr(t)) for t in pts]
+    if gid is None or ctx is None:
+        return lit
+    import numpy as np
+
+    if gid not in ctx["grids"]:
+        ctx["grids"][gid] = (np.array(lit, dtype=float), list(lit))
+    return ctx["grids"][gid][0]
+
+
+def op_gid(op: list):  # noqa: ANN201
+    """grid id of a tc / ptc operation (optional trailing element), else None"""
+    if op[0] == "tc" and len(op) > 2:
+        return op[2]
+    if op[0] == "ptc" and len(op) > 4:
+        return op[4]
+    return None
+
+
+def apply_op(sim, op: list, ctx: dict | None = None) -> None:  # noqa: ANN001
     kind = op[0]
     if kind == "sim":
         sim.simulate(float(fr(op[1])), steps=op[2])
     elif kind == "tc":
-        sim.simulate_time_course([float(fr(t)) for t in op[1]])
+        sim.simulate_time_course(_grid(ctx, op_gid(op), op[1]))
     elif kind == "prot":
         sim.simulate_protocol(_protocol(op[1]), time_points_per_step=op[2])
     elif kind == "ptc":
-        sim.simulate_protocol_time_course(_protocol(op[1]), [float(fr(t)) for t in op[2]], time_points_as_relative=bool(op[3]))
+        sim.simulate_protocol_time_course(_protocol(op[1]), _grid(ctx, op_gid(op), op[2]), time_points_as_relative=bool(op[3]))
     elif kind == "steady":
         sim.simulate_to_steady_state(tolerance=1e-6, rel_norm=False)
     elif kind == "updpar":
@@ -633,6 +716,18 @@ def apply_op(sim, op: list) -> None:  # noqa: ANN001
         sim.clear_results()
     else:
         raise AssertionError(kind)
+
+
+def _mutated_grids(ctx: dict) -> list:
+    """caller-owned arrays whose content changed since the last look: [[gid, literal, now], ...]"""
+    out = []
+    for gid, (arr, lit) in ctx["grids"].items():
+        now = [float(v) for v in arr.tolist()]
+        seen = ctx["seen"].get(gid, lit)
+        if now != seen:
+            out.append([gid, [js(fr(v)) for v in lit], [js(fr(v)) if math.isfinite(v) else repr(v) for v in now]])
+            ctx["seen"][gid] = now
+    return out
 
 
 def observe(sim, mode: str, out: str) -> dict:  # noqa: ANN001
@@ -680,13 +775,14 @@ def run_history(mode: str, y0: list, p0: list, ops: list, *, want_fluxes: bool =
     obs: list[dict] = []
     discard = None
     fluxes = None
+    ctx: dict = {"grids": {}, "seen": {}}
     signal.signal(signal.SIGALRM, _alarm)
     try:
         sim = Simulator(model, integrator=Scipy)
         for op in ops:
             signal.setitimer(signal.ITIMER_REAL, 20.0)
             try:
-                apply_op(sim, op)
+                apply_op(sim, op, ctx)
                 out = "done"
             except ValueError:
                 out = "ValueError"
@@ -702,6 +798,7 @@ def run_history(mode: str, y0: list, p0: list, ops: list, *, want_fluxes: bool =
             finally:
                 signal.setitimer(signal.ITIMER_REAL, 0)
             obs.append(observe(sim, mode, out))
+            obs[-1]["mutated"] = _mutated_grids(ctx)
         if want_fluxes and discard is None and obs and obs[-1]["err"] == "none":
             fl = sim.get_result().unwrap_or_err().get_fluxes(concatenated=False)
             fluxes = [[[js(fr(t))] + [float(v) for v in row] for t, row in zip(df.index, df.to_numpy().tolist())] for df in fl]
@@ -728,6 +825,8 @@ def _close(mode: str, got: Any, exp: Any) -> bool:
 def _flow(mode: str, pars: dict, t0: Fraction, y: list, d: Fraction) -> list:
     if mode == "exact":
         return exact_flow(pars, t0, y, d)
+    if mode == "tdep":
+        return tdep_flow(pars, float(t0), [float(v) for v in y], float(d))
     return chain_flow(pars, [float(v) for v in y], float(d))
 
 
@@ -753,7 +852,23 @@ class Spec:
         self.nseg = 0  # number of segments expected so far; 0 = no results
         self.failed = False
         self.pending: dict[str, Fraction] = {}  # overrides applied since the last accepted integration
-        self.tags: set[str] = set()  # what happened so far (for attributing known findings)
+        self.tags: set[str] = set()  # what happened so far (informative)
+        # --- guard of the known finding steady-state-resets-integrator (Scipy.integrate_to_steady_state resets the
+        # integrator to the point it was created at and does not advance it).  What IS well defined around a
+        # steady-state run is judged like everything else; only this is attributed to the finding:
+        #   (a) the steady-state run itself when the integrator is NOT at the point it was created at, i.e. when
+        #       something was integrated (`advanced`) or another steady-state run happened (`stale`) since the
+        #       integrator was last (re)initialised (new simulator / update_variable(s) / clear_results);
+        #   (b) the CONTENT (new rows, whole axis) of the first accepted simulating call after a steady-state run,
+        #       unless update_variable(s) / clear_results re-initialised the integrator in between (an override is
+        #       applied to the last reported row and the next segment starts from it: judged);
+        #   (c) monotonicity of the axis ACROSS rows produced under (a)/(b) (`axis_from`: later rows are still
+        #       required to increase among themselves and to lie after the last reported row).
+        self.advanced = False
+        self.stale = False
+        self.guard = False  # the judgement being made right now falls under (a)/(b)
+        self.guard_ns = False  # ... under the C14 finding protocol-start-rounded-to-ns (see classify)
+        self.axis_from = 0  # rows before this position of the accumulated axis are covered by (c)
 
 
 def oracle_history(mode: str, y0: list, p0: list, ops: list, obs: list[dict]) -> list[dict]:
@@ -764,7 +879,11 @@ def oracle_history(mode: str, y0: list, p0: list, ops: list, obs: list[dict]) ->
     prev_pars: list | None = None
 
     def flag(i: int, what: str) -> None:
-        bad.append({"op": i, "what": what, "tags": sorted(sp.tags)})
+        bad.append({"op": i, "what": what, "tags": sorted(sp.tags | ({"steady-guard"} if sp.guard else set())
+                                                         | ({"ptc-start-not-ns"} if sp.guard_ns else set()))})
+
+    def n_rows_of(segs: list | None) -> int:
+        return sum(len(x) for x in segs) if segs else 0
 
     def idx_of(seg: list) -> list[Fraction]:
         return [fr(r[0]) for r in seg]
@@ -827,7 +946,7 @@ def oracle_history(mode: str, y0: list, p0: list, ops: list, obs: list[dict]) ->
 
     def whole_axis_ok(i: int, o: dict) -> None:
         if o["segs"]:
-            axis = [t for s in o["segs"] for t in idx_of(s)]
+            axis = [t for s in o["segs"] for t in idx_of(s)][sp.axis_from:]
             if not _incr(axis):
                 flag(i, f"the accumulated time axis is not strictly increasing: {[str(t) for t in axis]}")
 
@@ -839,9 +958,16 @@ def oracle_history(mode: str, y0: list, p0: list, ops: list, obs: list[dict]) ->
         return True
 
     def continuation(i: int, o: dict, pieces: list[tuple[list[Fraction] | None, dict, dict]]) -> None:
-        """pieces: (expected new index | None, parameters in force, extra) for each expected new segment"""
         if not old_part_ok(i, o):
             return
+        sp.guard = sp.stale  # (b): the integrator does not hold the last reported row
+        try:
+            _continuation(i, o, pieces)
+        finally:
+            sp.guard = False
+
+    def _continuation(i: int, o: dict, pieces: list[tuple[list[Fraction] | None, dict, dict]]) -> None:
+        """pieces: (expected new index | None, parameters in force, extra) for each expected new segment"""
         n_old = 0 if prev_segs is None else len(prev_segs)
         got_new = 0 if o["segs"] is None else len(o["segs"]) - n_old
         if got_new != len(pieces):
@@ -859,12 +985,9 @@ def oracle_history(mode: str, y0: list, p0: list, ops: list, obs: list[dict]) ->
                 y_from = [fr(v) if mode == "exact" else float(v) for v in seg[-1][1:]]
         whole_axis_ok(i, o)
 
-    for i, (op, o) in enumerate(zip(ops, obs)):
+    def judge_known_op(i: int, op: list, o: dict) -> None:
+        nonlocal prev_segs, prev_pars
         kind = op[0]
-        if o["out"] not in ("done", "ValueError", "IndexError"):
-            flag(i, f"operation {kind} ended with {o['out']}")
-            resync(o)
-            continue
         # ---- bookkeeping operations
         if kind == "updpar":
             sp.pars.update({k: fr(v) for k, v in op[1].items()})
@@ -874,7 +997,7 @@ def oracle_history(mode: str, y0: list, p0: list, ops: list, obs: list[dict]) ->
             if {k: fr(v) for k, v in o["model_pars"].items()} != sp.pars:
                 flag(i, f"model parameters {o['model_pars']} after the update, expected {({k: str(v) for k, v in sp.pars.items()})}")
             resync(o)
-            continue
+            return
         if kind == "updvar":
             if o["out"] != "done":
                 flag(i, "update_variable(s) raised " + o["out"])
@@ -888,7 +1011,7 @@ def oracle_history(mode: str, y0: list, p0: list, ops: list, obs: list[dict]) ->
                 resync(o)
                 # the simulator's start state (what clear_results restarts from) is now the overridden state
                 sp.y_init = [fr(v) if mode == "exact" else v for v in sp.cur]
-            continue
+            return
         if kind == "clear":
             if o["out"] != "done" or o["segs"] is not None or o["pars"] is not None:
                 flag(i, "clear_results left results behind")
@@ -896,7 +1019,7 @@ def oracle_history(mode: str, y0: list, p0: list, ops: list, obs: list[dict]) ->
             sp.reached, sp.nseg, sp.failed, sp.pending, sp.tags = F(0), 0, False, {}, set()
             prev_segs, prev_pars = None, None
             sp.cur = list(sp.y_init)
-            continue
+            return
         # ---- simulating operations
         if sp.failed:
             if o["out"] != "done":
@@ -906,7 +1029,7 @@ def oracle_history(mode: str, y0: list, p0: list, ops: list, obs: list[dict]) ->
                 pass  # parameters are not touched either: checked through model_pars below
             if {k: fr(v) for k, v in o["model_pars"].items()} != sp.pars:
                 flag(i, "model parameters changed by an operation that was skipped")
-            continue
+            return
         if sp.pars.get("a", 0) != 0:
             sp.tags.add("nonautonomous")
         if sp.pars.get("boom", 0) != 0 and kind != "steady":
@@ -917,21 +1040,21 @@ def oracle_history(mode: str, y0: list, p0: list, ops: list, obs: list[dict]) ->
                 sp.pars = {k: fr(v) for k, v in o["model_pars"].items()}  # rows applied before the failure
                 if o["segs"] != prev_segs:
                     flag(i, "failed protocol step added rows")
-                continue
+                return
             refused = (kind == "sim" and fr(op[1]) <= sp.reached) or (kind == "tc" and fr(op[1][-1]) <= sp.reached)
             if refused:
                 if o["out"] != "ValueError":
                     flag(i, f"{kind} to an end not later than {sp.reached} was not refused")
                 expect_unchanged(i, o, "refused continuation")
-                continue
+                return
             expect_unchanged(i, o, "failed integration")
             if (kind == "tc" and not _tc_legal(op[1], sp.reached)) or (kind == "sim" and op[2] == 0):
-                continue  # malformed request: raising is fine too
+                return  # malformed request: raising is fine too
             if o["out"] != "done" or o["err"] == "none":
                 flag(i, f"{kind}: the solver failed but the call gave {o['out']} / error {o['err']}")
             if o["err"] != "none":
                 sp.failed = True
-            continue
+            return
         if kind == "sim":
             t_end, steps = fr(op[1]), op[2]
             if t_end <= sp.reached:
@@ -952,7 +1075,7 @@ def oracle_history(mode: str, y0: list, p0: list, ops: list, obs: list[dict]) ->
                 extra = {} if steps is not None else {"n_rows": 99 + (1 if sp.nseg == 0 else 0), "end": t_end}
                 continuation(i, o, [(_linspace_new(sp.reached, t_end, steps), dict(sp.pars), extra)])
                 resync(o)
-            continue
+            return
         if kind == "tc":
             pts = [fr(t) for t in op[1]]
             if pts[-1] <= sp.reached:
@@ -977,27 +1100,27 @@ def oracle_history(mode: str, y0: list, p0: list, ops: list, obs: list[dict]) ->
                 else:
                     expect_unchanged(i, o, "refused malformed time array")
                 resync(o)
-            continue
+            return
         if kind == "steady":
-            sp.tags.add("steady")
             if o["out"] != "done":
                 flag(i, "simulate_to_steady_state raised " + o["out"])
                 resync(o)
-                continue
+                return
             if o["err"] == "nosteady":
                 sp.failed = True
                 expect_unchanged(i, o, "steady-state search without success")
-                continue
+                return
             if not old_part_ok(i, o):
                 resync(o)
-                continue
+                return
             n_old = 0 if prev_segs is None else len(prev_segs)
             if o["segs"] is None or len(o["segs"]) != n_old + 1 or len(o["segs"][-1]) != 1:
                 flag(i, "steady-state run did not append exactly one row")
                 resync(o)
-                continue
+                return
             row = o["segs"][-1][0]
             t = fr(row[0])
+            sp.guard = sp.advanced or sp.stale  # (a): the reset throws the integrator back to where it was created
             if t <= sp.reached:
                 flag(i, f"steady-state row is stamped t={t}, not later than the time already reached ({sp.reached})")
             else:
@@ -1006,7 +1129,7 @@ def oracle_history(mode: str, y0: list, p0: list, ops: list, obs: list[dict]) ->
                     flag(i, f"steady-state row {row[1:]} at t={t} is not the solution continued from t={sp.reached}, state {[str(v) for v in sp.cur]}")
             whole_axis_ok(i, o)
             resync(o)
-            continue
+            return
         if kind in ("prot", "ptc"):
             durations = [fr(d) for d, _ in op[1]]
             ends = []
@@ -1032,7 +1155,7 @@ def oracle_history(mode: str, y0: list, p0: list, ops: list, obs: list[dict]) ->
                     flag(i, f"protocol with positive durations was refused ({o['out']})")
                     sp.pars = {k: fr(v) for k, v in o["model_pars"].items()}
                     resync(o)
-                    continue
+                    return
                 continuation(i, o, pieces)
             else:
                 pts = [fr(t) for t in op[2]]
@@ -1044,18 +1167,18 @@ def oracle_history(mode: str, y0: list, p0: list, ops: list, obs: list[dict]) ->
                     expect_unchanged(i, o, "refused continuation")
                     if {k: fr(v) for k, v in o["model_pars"].items()} != sp.pars:
                         flag(i, "refused protocol time course changed the model parameters")
-                    continue
+                    return
                 if not _incr(pts):
                     sp.pars = {k: fr(v) for k, v in o["model_pars"].items()}
                     if o["out"] == "done":
                         whole_axis_ok(i, o)
                     resync(o)
-                    continue
+                    return
                 if o["out"] != "done":
                     flag(i, f"protocol time course reaching beyond {sp.reached} was refused ({o['out']})")
                     sp.pars = {k: fr(v) for k, v in o["model_pars"].items()}
                     resync(o)
-                    continue
+                    return
                 allpts = sorted(set(pts) | set(ends))
                 pieces = []
                 a = sp.reached
@@ -1067,8 +1190,44 @@ def oracle_history(mode: str, y0: list, p0: list, ops: list, obs: list[dict]) ->
             if {k: fr(v) for k, v in o["model_pars"].items()} != sp.pars:
                 flag(i, "model parameters after the protocol are not the last step's values")
             resync(o)
-            continue
+            return
         raise AssertionError(kind)
+
+    simulating = ("sim", "tc", "prot", "ptc")
+
+    def judge_op(i: int, op: list, o: dict) -> None:
+        nonlocal prev_segs, prev_pars
+        kind = op[0]
+        for gid, lit, now in o.get("mutated") or []:
+            flag(i, f"the caller's own time-point array (ndarray #{gid}, passed to this {kind} call) was modified in place: "
+                    f"{lit} became {now} -- the inputs of a call are values; the next call reusing the array asks for other points")
+        if o["out"] not in ("done", "ValueError", "IndexError"):
+            flag(i, f"operation {kind} ended with {o['out']}")
+            resync(o)
+            return
+        judge_known_op(i, op, o)
+
+    for i, (op, o) in enumerate(zip(ops, obs)):
+        kind = op[0]
+        n_before = n_rows_of(prev_segs)
+        covered = (kind == "steady" and (sp.advanced or sp.stale)) or (kind in simulating and sp.stale)
+        sp.guard = False
+        # simulate_protocol_time_course passes the time reached through pd.Timedelta (nanosecond resolution)
+        sp.guard_ns = kind == "ptc" and (sp.reached * 10**9).denominator != 1
+        judge_op(i, op, o)
+        sp.guard = sp.guard_ns = False
+        n_after = n_rows_of(o["segs"])
+        if kind in simulating and n_after != n_before:
+            sp.advanced, sp.stale = True, False  # the integrator advanced to the last row it reported
+        if kind == "steady" and o["out"] == "done" and (n_after != n_before or o["err"] == "nosteady"):
+            sp.stale = True  # reset, not advanced
+            sp.tags.add("steady")
+        if kind in ("updvar", "clear") and o["out"] == "done":
+            sp.advanced = sp.stale = False  # re-initialised at the last reported row / at the start
+        if covered and n_after != n_before:
+            sp.axis_from = max(sp.axis_from, n_after - 1)
+        if kind == "clear":
+            sp.axis_from = 0
     return bad
 
 
@@ -1082,8 +1241,10 @@ def _tc_legal(pts_raw: list, reached: Fraction) -> bool:
 def classify(v: dict, mode: str) -> str | None:
     """known finding a violation belongs to (by guard), or None"""
     tags = set(v["tags"])
-    if "steady" in tags:
+    if "steady-guard" in tags:
         return "steady-state-resets-integrator"
+    if "ptc-start-not-ns" in tags:
+        return "protocol-start-rounded-to-ns"  # C14
     return None
 
 
@@ -1116,16 +1277,39 @@ def gen_history(rng, mode: str, max_len: int = 6, *, weights: dict | None = None
     y0 = [rng.choice([F(1), F(2), F(1, 2), F(3)]), rng.choice([F(0), F(1), F(1, 2), F(2)])]
     p0 = [rng.choice([F(1), F(1, 2), F(2), F(1, 4)]), rng.choice([F(0), F(0), F(1, 2), F(1)])]
     if mode == "exact":
-        p0 += [F(0), F(0)]
+        # a != 0: the first rate reads `time`, so the model time handed to the right-hand side is observable
+        p0 += [rng.choice([F(0), F(0), F(0), F(1), F(1, 2)]), F(0)]
     w = {"sim": 30, "tc": 20, "prot": 7, "ptc": 8, "steady": 3, "updpar": 10, "updvar": 14, "clear": 4}
     if weights:
         w.update(weights)
+    if mode == "tdep":
+        w["steady"] = 0  # y' = c*time - k*y has no steady state: 1000 solver steps to t = 1e5 for nothing
     kinds, wts = list(w), list(w.values())
     reached = F(0)
     have = False
     ops: list = []
+    grids: list = []  # [kind, points as written, relative?, id]: caller-owned ndarrays that later calls may reuse
     for _ in range(rng.randint(1, max_len)):
         kind = rng.choices(kinds, wts)[0]
+        if kind in ("tc", "ptc") and grids and rng.random() < 0.12:
+            # the caller passes an array object again that an earlier call was given
+            cand = [g for g in grids if g[0] == kind]
+            if cand:
+                g = rng.choice(cand)
+                if kind == "tc":
+                    ops.append(["tc", list(g[1]), g[3]])
+                    pts = [fr(t) for t in g[1]]
+                    if pts[-1] > reached and _incr([t for t in pts if t >= reached]):
+                        reached, have = pts[-1], True
+                else:
+                    steps = gen_steps(rng, mode)
+                    total = sum(fr(d) for d, _ in steps)
+                    ops.append(["ptc", steps, list(g[1]), g[2], g[3]])
+                    absolute = [fr(t) + reached for t in g[1]] if g[2] else [fr(t) for t in g[1]]
+                    if absolute[-1] > reached and _incr(absolute):
+                        reached += total
+                        have = True
+                continue
         if kind == "sim":
             r = rng.random()
             if r < 0.8:
@@ -1154,7 +1338,16 @@ def gen_history(rng, mode: str, max_len: int = 6, *, weights: dict | None = None
             else:
                 pts = sorted(rng.sample([reached + _g(j) for j in range(0, 17)], n))
                 pts.insert(rng.randrange(len(pts)), rng.choice(pts))
-            ops.append(["tc", [js(t) for t in pts]])
+            if r < 0.75 and rng.random() < 0.1:
+                # a first point only just later than the time reached (dyadic, exact in binary64, and a whole number of
+                # nanoseconds: simulate_protocol_time_course passes the time reached through pd.Timedelta)
+                pts = sorted({reached + F(1, 2 ** rng.choice([7, 8, 9])), *pts})
+            if rng.random() < 0.15:
+                gid = len(grids)
+                grids.append(["tc", [js(t) for t in pts], False, gid])
+                ops.append(["tc", [js(t) for t in pts], gid])
+            else:
+                ops.append(["tc", [js(t) for t in pts]])
             kept = [t for t in pts if t >= reached]
             if pts[-1] > reached and _incr(kept):
                 reached, have = pts[-1], True
@@ -1184,7 +1377,12 @@ def gen_history(rng, mode: str, max_len: int = 6, *, weights: dict | None = None
                 rng.shuffle(pts)
             base = F(0) if rel else (reached if rng.random() < 0.85 else F(0))
             ptsq = [base + _g(j) for j in pts]
-            ops.append(["ptc", steps, [js(t) for t in ptsq], rel])
+            if rng.random() < 0.2:
+                gid = len(grids)
+                grids.append(["ptc", [js(t) for t in ptsq], rel, gid])
+                ops.append(["ptc", steps, [js(t) for t in ptsq], rel, gid])
+            else:
+                ops.append(["ptc", steps, [js(t) for t in ptsq], rel])
             absolute = [t + reached for t in ptsq] if rel else ptsq
             if absolute[-1] > reached and _incr(absolute):
                 reached += total
@@ -1220,6 +1418,167 @@ def gen_history(rng, mode: str, max_len: int = 6, *, weights: dict | None = None
             ops.append(["clear"])
             reached, have = F(0), False
     del have
+    return {"mode": mode, "y0": [js(v) for v in y0], "p0": [js(v) for v in p0], "ops": ops}
+
+
+def _base(rng, mode: str, *, a=None) -> tuple[list, list]:  # noqa: ANN001
+    y0 = [rng.choice([F(1), F(2), F(1, 2), F(3)]), rng.choice([F(0), F(1), F(1, 2), F(2)])]
+    p0 = [rng.choice([F(1), F(1, 2), F(2), F(1, 4)]), rng.choice([F(0), F(0), F(1, 2), F(1)])]
+    if mode == "exact":
+        p0 += [rng.choice([F(0), F(0), F(1), F(1, 2)]) if a is None else a, F(0)]
+    return y0, p0
+
+
+def _cont_ops(rng, mode: str, reached: Fraction | None, n: int) -> tuple[list, Fraction | None]:  # noqa: ANN001
+    """n legal continuations; `reached` None = the time reached is not known statically (after a steady-state run on
+    the real solver): only calls that are relative to the time reached by construction, and time courses offering
+    points shortly after every multiple of 100"""
+    ops: list = []
+    for _ in range(n):
+        r = rng.random()
+        if reached is None:
+            if r < 0.4:
+                ops.append(["prot", gen_steps(rng, mode), rng.choice([1, 2, 4])])
+            elif r < 0.75:
+                steps = gen_steps(rng, mode)
+                total = sum(fr(d) for d, _ in steps)
+                pts = sorted(rng.sample(range(1, int(total * GRID) + 1), min(rng.randint(1, 4), int(total * GRID))))
+                ops.append(["ptc", steps, [js(_g(j)) for j in pts], True])
+            else:
+                offs = sorted(rng.sample(range(1, 25), 3))
+                ops.append(["tc", [js(F(100 * m) + _g(j)) for m in range(1, 9) for j in offs]])
+                return ops, None  # the time reached is past every candidate now
+        else:
+            if r < 0.45:
+                reached += _g(rng.randint(1, 24))
+                ops.append(["sim", js(reached), rng.choice([1, 2, 4, 8])])
+            elif r < 0.8:
+                pts = sorted(rng.sample([reached + _g(j) for j in range(1, 33)], rng.randint(1, 4)))
+                ops.append(["tc", [js(t) for t in pts]])
+                reached = pts[-1]
+            else:
+                steps = gen_steps(rng, mode)
+                ops.append(["prot", steps, rng.choice([1, 2, 4])])
+                reached += sum(fr(d) for d, _ in steps)
+    return ops, reached
+
+
+def _one_var(rng) -> dict:  # noqa: ANN001
+    """an override of ONE of the two variables (the other one exposes the state the restart was made from)"""
+    if rng.random() < 0.5:
+        return {"x": js(rng.choice([F(0), F(1, 2), F(1), F(2), F(3)]))}
+    return {"y": js(rng.choice([F(0), F(1, 2), F(1), F(2)]))}
+
+
+def gen_steady_override(rng, mode: str) -> dict:  # noqa: ANN001
+    """[prefix] ; steady-state run ; update_variable(one variable) ; continuation(s): the override is applied to the row
+    the steady-state run reported and the next segment starts from it (well defined although the steady-state run
+    leaves the integrator reset).  exact mode: x' = k*y + a*time with y = -50*a*(2n-1)/k and c = 0 makes the iterates at
+    t = 100(n-1) and 100n coincide, so the exact stand-in reports a "steady state" at t = 100n whose state differs
+    from the initial one; scipy mode: a genuine steady state of the decay chain."""
+    if mode == "exact":
+        n = rng.choice([2, 2, 3])
+        k, a = rng.choice([F(1), F(1, 2), F(2)]), rng.choice([F(1), F(1, 2)])
+        y0 = [rng.choice([F(1), F(2), F(0)]), -50 * a * (2 * n - 1) / k]
+        p0 = [k, F(0), a, F(0)]
+        ops: list = [["steady"]]
+        reached: Fraction | None = F(100 * n)
+    else:
+        y0, p0 = _base(rng, mode)
+        ops = []
+        r = rng.random()
+        if r < 0.35:
+            ops.append(["sim", js(_g(rng.randint(1, 24))), rng.choice([1, 2, 4])])
+            ops.append(["updvar", _one_var(rng)])  # re-initialises the integrator: the steady-state run below is legal
+        elif r < 0.5:
+            ops.append(["updvar", _one_var(rng)])
+        ops.append(["steady"])
+        reached = None
+    if rng.random() < 0.25:
+        ops.append(["updpar", {"k": js(rng.choice([F(1, 2), F(1), F(2)]))}])
+    ops.append(["updvar", _one_var(rng)])
+    if rng.random() < 0.2:
+        ops.append(["updvar", _one_var(rng)])
+    ops += _cont_ops(rng, mode, reached, rng.randint(1, 2))[0]
+    return {"mode": mode, "y0": [js(v) for v in y0], "p0": [js(v) for v in p0], "ops": ops}
+
+
+def gen_large_time(rng, mode: str) -> dict:  # noqa: ANN001
+    """large absolute time and a first requested point only just later than the time reached (gap 2^-7 .. 2^-9, all
+    values dyadic and exact in binary64), directly or in shifted integrator time after an override"""
+    y0, p0 = _base(rng, mode)
+    ops: list = []
+    reached = F(rng.choice([512, 1024, 2048, 4096])) + _g(rng.choice([0, 0, 1, 4]))
+    if rng.random() < 0.4:
+        reached0 = _g(rng.randint(1, 64))
+        ops.append(["sim", js(reached0), rng.choice([1, 2])])
+        ops.append(["updvar", _one_var(rng)])
+        reached += reached0
+    if rng.random() < 0.7:
+        ops.append(["sim", js(reached), rng.choice([1, 2, 4])])
+    else:
+        ops.append(["tc", [js(reached - 1), js(reached)]])
+    if rng.random() < 0.2:
+        ops.append(["updpar", {"k": js(rng.choice([F(1, 2), F(1), F(0)]))}])
+    for _ in range(rng.randint(1, 2)):
+        gap = F(1, 2 ** rng.choice([7, 8, 8, 9]))  # >= 2^-9: whole nanoseconds (pd.Timedelta in the protocol time course)
+        r = rng.random()
+        if r < 0.7:
+            pts = [reached + gap] + sorted(rng.sample([reached + gap + _g(j) for j in range(1, 33)], rng.randint(1, 3)))
+            ops.append(["tc", [js(t) for t in pts]])
+            reached = pts[-1]
+        elif r < 0.85:
+            steps = gen_steps(rng, mode)
+            total = sum(fr(d) for d, _ in steps)
+            rel = rng.random() < 0.5
+            pts = [gap] + [gap + _g(j) for j in sorted(rng.sample(range(1, int(total * GRID) + 1), min(2, int(total * GRID))))]
+            ops.append(["ptc", steps, [js(t if rel else t + reached) for t in pts], rel])
+            reached += total
+        else:
+            reached += gap
+            ops.append(["sim", js(reached), rng.choice([1, 2])])
+    return {"mode": mode, "y0": [js(v) for v in y0], "p0": [js(v) for v in p0], "ops": ops}
+
+
+def gen_clear_after_override(rng, mode: str) -> dict:  # noqa: ANN001
+    """simulate ; update_variable(s) ; [simulate] ; clear_results ; simulate ... on a model whose rates read `time`:
+    after clear_results the simulator starts again at absolute time 0 and the model must see time 0.. again"""
+    y0, p0 = _base(rng, mode, a=rng.choice([F(1), F(1, 2), F(2)]))
+    ops, reached = _cont_ops(rng, mode, F(0), 1)
+    ops.append(["updvar", _one_var(rng)])
+    if rng.random() < 0.7:
+        ops += _cont_ops(rng, mode, reached, 1)[0]
+    if rng.random() < 0.2:
+        ops.append(["updpar", {"k": js(rng.choice([F(1, 2), F(1), F(2)]))}])
+    ops.append(["clear"])
+    ops += _cont_ops(rng, mode, F(0), rng.randint(1, 2))[0]
+    return {"mode": mode, "y0": [js(v) for v in y0], "p0": [js(v) for v in p0], "ops": ops}
+
+
+def gen_shared_grid(rng, mode: str) -> dict:  # noqa: ANN001
+    """a protocol run several times in a row (cycles), every call given the SAME float64 ndarray of (mostly relative)
+    time points; each call must leave the array alone and return its own start + points + boundaries"""
+    y0, p0 = _base(rng, mode)
+    ops: list = []
+    reached = F(0)
+    r = rng.random()
+    if r < 0.5:
+        reached = _g(rng.randint(1, 24))
+        ops.append(["sim", js(reached), rng.choice([1, 2, 4])])
+        if rng.random() < 0.3:
+            ops.append(["updvar", _one_var(rng)])
+    steps = gen_steps(rng, mode)
+    total = sum(fr(d) for d, _ in steps)
+    rel = rng.random() < 0.85
+    hi = int(total * GRID) + (4 if rng.random() < 0.3 else 0)
+    pts = [_g(j) for j in sorted(rng.sample(range(1, hi + 1), min(rng.randint(1, 5), hi)))]
+    if not rel:
+        pts = [t + reached for t in pts]
+    for c in range(rng.randint(2, 3)):
+        st = steps if rng.random() < 0.7 else gen_steps(rng, mode)
+        ops.append(["ptc", st, [js(t) for t in pts], rel, 0])
+        if c == 0 and rng.random() < 0.2:
+            ops.append(["updpar", {"k": js(rng.choice([F(1, 2), F(1), F(2)]))}])
     return {"mode": mode, "y0": [js(v) for v in y0], "p0": [js(v) for v in p0], "ops": ops}
 
 
@@ -1276,7 +1635,7 @@ def coq_obs(o: dict, mode: str) -> str:
 
 def coq_case(h: dict, obs: list[dict]) -> str:
     mode = h["mode"]
-    p0 = list(h["p0"]) + (["0", "0"] if mode == "scipy" else [])
+    p0 = list(h["p0"]) + (["0", "0"] if mode != "exact" else [])
     return (
         f"({cbool(mode == 'exact')}, {_cqs(h['y0'])}, {_cqs(p0)},\n   {clist(coq_op(op, mode) for op in h['ops'])},\n   "
         f"{clist(coq_obs(o, mode) for o in obs)})"
@@ -1327,9 +1686,14 @@ ASSUMPTIONS = [
     "_handle_simulation_results, _initialise_integrator, update_variable(s), clear_results, simulate_protocol, simulate_protocol_time_course, make_protocol, "
     "Scipy.reset/integrate/integrate_time_course/integrate_to_steady_state)",
     "pandas/NumPy containers are modelled as lists; np.linspace and float arithmetic are exact on the dyadic inputs used "
-    "(multiples of 1/8, steps in {1,2,4,8}); pd.Timedelta nanosecond rounding and binary rounding of non-dyadic times are outside the Q model",
+    "(multiples of 1/8, steps in {1,2,4,8}; gaps 2^-7..2^-9 at absolute times up to 4096); pd.Timedelta nanosecond rounding and binary "
+    "rounding of non-dyadic times are outside the Q model (the one place where the code rounds a TIME REACHED to nanoseconds is the known "
+    "finding protocol-start-rounded-to-ns of C14; generated histories keep the time reached a whole number of nanoseconds)",
     "state values: exact in 'exact' mode (stand-in for scipy.integrate computing the polynomial closed form, used through the real "
-    "Scipy class); in 'scipy' mode against the closed form with atol 2e-6 / rtol 2e-4 (validation only, solver runs at 1e-8)",
+    "Scipy class); in 'scipy' / 'tdep' mode (real scipy; tdep: every rate reads time) against the closed form with atol 2e-6 / rtol 2e-4 "
+    "(validation only, solver runs at 1e-8)",
+    "caller-owned ndarrays: that a call leaves the array it was given unmodified is validated on the implementation after every operation "
+    "(in the model the arguments of an operation are values)",
     "correspondence harness: literal printer, observation canonicaliser, coqc output parser",
 ]
 
@@ -1355,6 +1719,31 @@ CORPUS_C04 += [
     {"mode": "exact", "y0": ["0", "0"], "p0": ["0", "0", "1", "0"], "ops": [["sim", "2", 1], ["updvar", {"x": "2"}], ["sim", "4", 1]]},
     {"mode": "exact", "y0": _Y0, "p0": ["1", "1/2", "1/2", "0"],
      "ops": [["tc", ["1", "3"]], ["updvar", {"y": "0"}], ["tc", ["4", "6"]], ["updvar", {"x": "1"}], ["updvar", {"y": "1"}], ["sim", "8", 2]]},
+]
+
+# --- seeded changes that were at first only reported through a pinned fact (seeded/C04-1..3): minimal histories on which
+# the oracle decides them
+CORPUS_C04 += [
+    # override after a steady-state run: applied to the row the run reported (exact: "steady" at t = 200 in the state
+    # (-9999, -150), not the initial one; scipy: the decay chain's steady state)
+    {"mode": "exact", "y0": ["1", "-150"], "p0": ["1", "0", "1", "0"], "ops": [["steady"], ["updvar", {"y": "1"}], ["sim", "202", 2]]},
+    {"mode": "scipy", "y0": ["2", "1"], "p0": ["1/2", "1/2"],
+     "ops": [["steady"], ["updvar", {"y": "2"}], ["prot", [["1", {"k": "1/2"}], ["1", {"k": "1"}]], 2]]},
+    {"mode": "scipy", "y0": ["3", "1"], "p0": ["1", "0"],
+     "ops": [["sim", "1", 2], ["updvar", {"x": "2"}], ["steady"], ["updvar", {"x": "1"}], ["ptc", [["2", {"k": "1/2"}]], ["1/4", "1", "2"], True]]},
+    # a requested point only just later than the time reached, at large absolute time (also in shifted time)
+    {"mode": "exact", "y0": _Y0, "p0": _P0, "ops": [["sim", "1024", 1], ["tc", ["262145/256", "1030"]]]},
+    {"mode": "scipy", "y0": _Y0, "p0": ["1/4", "1/2"], "ops": [["sim", "1024", 2], ["tc", ["262145/256", "2049/2", "1025"]]]},
+    {"mode": "exact", "y0": _Y0, "p0": ["1", "0", "1/2", "0"],
+     "ops": [["sim", "400", 4], ["updvar", {"x": "1"}], ["sim", "2000", 4], ["tc", ["256001/128", "2001"]]]},
+    # clear_results after an override, rates reading `time`
+    {"mode": "exact", "y0": ["1", "0"], "p0": ["0", "0", "1", "0"],
+     "ops": [["sim", "2", 2], ["updvar", {"x": "4"}], ["sim", "3", 2], ["clear"], ["sim", "3", 1]]},
+    {"mode": "tdep", "y0": ["2", "1"], "p0": ["1/2", "1"],
+     "ops": [["sim", "2", 4], ["updvar", {"x": "4"}], ["sim", "3", 2], ["clear"], ["sim", "2", 2], ["tc", ["5/2", "3"]]]},
+    # the same ndarray handed to two calls
+    {"mode": "exact", "y0": _Y0, "p0": _P0,
+     "ops": [["tc", ["1", "2"], 0], ["updvar", {"x": "1"}], ["tc", ["1", "2"], 0], ["clear"], ["tc", ["1", "2"], 0]]},
 ]
 
 WITNESS_STEADY = {"mode": "exact", "y0": ["1", "0"], "p0": ["1", "0", "0", "0"],
@@ -1424,7 +1813,7 @@ def run_all(run: common.Run, prop: str, hs: list[dict], proofs_ok: bool) -> None
             pending.append((hi, v, h))
         # not compared with the model: the inexact default grid (steps=None), and steady-state runs on the real scipy
         # (when the real solver's norm test fires is not something the model can know) -- both judged by the oracle only
-        if any(op[0] == "sim" and op[2] is None for op in h["ops"]) or (h["mode"] == "scipy" and any(op[0] == "steady" for op in h["ops"])):
+        if any(op[0] == "sim" and op[2] is None for op in h["ops"]) or (h["mode"] != "exact" and any(op[0] == "steady" for op in h["ops"])):
             dist["discarded"]["oracle-only"] = dist["discarded"].get("oracle-only", 0) + 1
         else:
             items.append((h, obs))
@@ -1447,7 +1836,17 @@ def run_all(run: common.Run, prop: str, hs: list[dict], proofs_ok: bool) -> None
         if n_viol < 4:
             n_viol += 1
             small = shrink(h, prop, v)
-            run.violation(f"{prop}: last operation of {small['ops']}: {v['what']}", {"kind": "history", "prop": prop, **small})
+            what = v["what"]
+            if small["ops"] != h["ops"]:
+                # describe the shrunk history in its own terms
+                try:
+                    _, bad2 = judge(small, prop)
+                    last = [b for b in bad2 if classify(b, small["mode"]) is None and b["op"] == len(small["ops"]) - 1]
+                    if last:
+                        what = last[0]["what"]
+                except Exception:  # noqa: BLE001
+                    pass
+            run.violation(f"{prop}: last operation of {small['ops']}: {what}", {"kind": "history", "prop": prop, **small})
     run.coverage["violations_attributed_to_known_findings"] = attributed
 
     for f in common.load_known_findings(prop):
